@@ -8,12 +8,15 @@ open Gobptree
 
 variable {K V : Type}
 
+/-- the state a thread starts its step in -/
+def stepSt (c : Config K V) (t : Nat) (th : Thread K V) : St K V :=
+  { tree := c.tree, owner := c.owner, held := th.held, cursor := th.cursor,
+    exhausted := th.exhausted, evs := Ev.dec t c.enabledSet :: c.log }
+
 /-- the configuration a step produces, spelled out -/
 theorem step_shape {c c' : Config K V} {t : Nat} (hstep : c.step t = some c') :
     ∃ th, c.threads[t]? = some th ∧ th.enabled c = true ∧
-      let s0 : St K V := { tree := c.tree, owner := c.owner, held := th.held, cursor := th.cursor,
-                           exhausted := th.exhausted, evs := Ev.dec t c.enabledSet :: c.log }
-      let r := runThread c.P t th s0
+      ∃ r, r = runThread c.P t th (stepSt c t th) ∧
       c' = { c with tree := r.2.1.tree, owner := r.2.1.owner, threads := c.threads.set t r.1,
                     log := r.2.1.evs, dead := c.dead || r.2.2 } := by
   unfold Config.step at hstep
@@ -23,7 +26,7 @@ theorem step_shape {c c' : Config K V} {t : Nat} (hstep : c.step t = some c') :
     simp only [hth] at hstep
     by_cases hen : th.enabled c = true
     · simp only [hen, Bool.not_true, Bool.false_eq_true, if_false, Option.some.injEq] at hstep
-      exact ⟨th, rfl, hen, hstep.symm⟩
+      exact ⟨th, rfl, hen, _, rfl, hstep.symm⟩
     · simp [hen] at hstep
 
 theorem enabled_not_finished {c : Config K V} {th : Thread K V} (h : th.enabled c = true) : th.park ≠ .finished := by
@@ -62,5 +65,240 @@ theorem hole_of_stepper {c : Config K V} (hinv : SInv c) {t : Nat} {th : Thread 
       cases k <;> first | (simp [kontLock] at hlock; done) | (simp [isDelPark, isDelK] at hdel; done)
     | start => rw [hp] at hdel; simp [isDelPark] at hdel
     | finished => rw [hp] at hdel; simp [isDelPark] at hdel
+
+
+theorem getElem?_set_cases {α : Type} (l : List α) (t j : Nat) (a b : α) (h : (l.set t a)[j]? = some b) :
+    (j = t ∧ b = a) ∨ (j ≠ t ∧ l[j]? = some b) := by
+  by_cases e : j = t
+  · subst e
+    left
+    rw [List.getElem?_set_self'] at h
+    cases hl : l[j]? with
+    | none => rw [hl] at h; cases h
+    | some x => rw [hl] at h; exact ⟨rfl, by simpa using h.symm⟩
+  · right
+    rw [List.getElem?_set_ne (Ne.symm e)] at h
+    exact ⟨e, h⟩
+
+theorem parkExtra_nonempty {T : Tree K V} {p : Park K V} {x : Nat} (h : x ∈ parkExtra T p) :
+    ∃ k, (p = .yielded k ∨ ∃ l, p = .want l k) ∧ x ∈ kontExtra T k := by
+  cases p with
+  | start => cases h
+  | finished => cases h
+  | want l k => exact ⟨k, Or.inr ⟨l, rfl⟩, h⟩
+  | yielded k => exact ⟨k, Or.inl rfl, h⟩
+
+/-- **one scheduler step preserves the invariant and respects the write frame** -/
+theorem step_cinv (B : Blocks K V) (c c' : Config K V) (t : Nat) (hstep : c.step t = some c') (hinv : CInv c) :
+    CInv c' ∧ ∃ th, c.threads[t]? = some th ∧ StepFrame c c' th := by
+  obtain ⟨th, ht, hen, r, hr, hc'⟩ := step_shape hstep
+  have htm : th ∈ c.threads := List.mem_of_getElem? ht
+  have hS := hinv.s
+  have hok := hS.cfg th htm
+  have hnf := enabled_not_finished hen
+  -- the step of the thread
+  obtain ⟨hole', hout, hD, hU⟩ := runThread_sinv B c.P t th (stepSt c t th)
+    (holeOf c.threads) rfl rfl rfl ⟨hS.tree, hS.order, hS.pad⟩ hok (hS.threads th htm) (hinv.disc th htm) hnf
+    (fun hdel => hole_of_stepper hS ht hen hdel)
+  rw [← hr] at hout hD hU
+  have hT0 : (stepSt c t th).tree = c.tree := rfl
+  rw [hT0] at hout
+  have halive : c'.dead = false := by
+    rw [hc']; simp [hinv.alive, hout.alive]
+  have hcfg' : ConfigOk c' := step_ok c c' t hstep hS.cfg halive
+  have hown' : OwnerOk c' := owner_step c c' t hstep hS.owner hS.cfg
+  have htree' : c'.tree = r.2.1.tree := by rw [hc']
+  have hths' : c'.threads = c.threads.set t r.1 := by rw [hc']
+  have hP' : c'.P = c.P := by rw [hc']
+  have hframe : FrameEq (keepOf (stepHeld th) c.tree.nextId) c.tree.flat c'.tree.flat := by
+    rw [htree']; exact hout.frame
+  have hroot : Lk.tree ∈ stepHeld th ∨ (c'.tree.rootId = c.tree.rootId ∧ c'.tree.depth = c.tree.depth) := by
+    rw [htree']; exact hout.root
+  have horder : c'.tree.order = c.tree.order := by rw [htree']; exact hout.order
+  have hN : c.tree.nextId ≤ c'.tree.nextId := by rw [htree']; exact hout.nextId
+  -- the other threads
+  have hother : ∀ j b, c.threads[j]? = some b → j ≠ t →
+      ThreadSOk c'.tree b ∧ parkExtra c'.tree b.park = parkExtra c.tree b.park :=
+    fun j b hj hne => other_sok hS ht hj hne hen hframe hroot horder
+  have hnew_sok : ThreadSOk c'.tree r.1 := by rw [htree']; exact hout.sok
+  have hnew_held : ∀ x ∈ r.1.held, x ∈ stepHeld th := by
+    rw [hr]; exact newHeld_sub c.P t th _ rfl hok hnf
+  have hnew_extra : ∀ x ∈ parkExtra c'.tree r.1.park, c.tree.nextId ≤ x := by
+    rw [htree']; exact hout.extra
+  have hidx : ∀ j b, c'.threads[j]? = some b → (j = t ∧ b = r.1) ∨ (j ≠ t ∧ c.threads[j]? = some b) := by
+    intro j b hj; rw [hths'] at hj; exact getElem?_set_cases _ _ _ _ _ hj
+  have hnewt : c'.threads[t]? = some r.1 := by
+    rw [hths', List.getElem?_set_self']; rw [ht]; rfl
+  -- a node some old thread relies on is an old node
+  have hold_lt : ∀ (j : Nat) (b : Thread K V), c.threads[j]? = some b → ∀ id,
+      (Lk.node id ∈ b.held ∨ parkWant b.park = some (Lk.node id) ∨ id ∈ parkExtra c.tree b.park) →
+      id < c.tree.nextId := by
+    intro j b hj id h
+    have hbm : b ∈ c.threads := List.mem_of_getElem? hj
+    obtain ⟨sh, hsh⟩ := thread_present hS.tree.ids hS.tree.chain (hS.cfg b hbm) (hS.threads b hbm) id h
+    exact look_lt_nextId hS.tree.ids hsh
+  -- the tree invariant with the new hole
+  have htreeOk : TreeOk (holeOf c'.threads) c'.tree := by
+    rw [htree']
+    have hTO := hout.tree
+    cases hdel : isDelPark th.park with
+    | true =>
+      have h1 := hD hdel
+      have : holeOf c'.threads = parkHole r.1.park := by
+        apply holeOf_eq_of_others_none c'.threads t r.1 hnewt
+        intro j b hj hne
+        rcases hidx j b hj with ⟨e, _⟩ | ⟨_, hjo⟩
+        · exact absurd e hne
+        · -- the stepping Delete holds rootMutex, so nobody else has a hole
+          cases hb : parkHole b.park with
+          | none => rfl
+          | some x =>
+            exfalso
+            have hbm : b ∈ c.threads := List.mem_of_getElem? hjo
+            have hbt := hole_holds_tree (hS.cfg b hbm) hb
+            have hnot := stepHeld_excl hS.owner ht hjo hne hen hbt
+            apply hnot
+            unfold stepHeld
+            cases hp : th.park with
+            | want l k =>
+              rw [hp] at hdel
+              by_cases hl : l = Lk.tree
+              · simp [hl]
+              · apply List.mem_append_left
+                exact del_holds_tree hok hp hdel hl
+            | yielded k =>
+              rw [hp] at hdel
+              have hlock : kontLock k = none := by
+                have := hok.2.2; rw [hp] at this; exact this
+              cases k <;> first | (simp [kontLock] at hlock; done) | (simp [isDelPark, isDelK] at hdel; done)
+            | start => rw [hp] at hdel; simp [isDelPark] at hdel
+            | finished => rw [hp] at hdel; simp [isDelPark] at hdel
+      rw [this, ← h1]; exact hTO
+    | false =>
+      obtain ⟨h1, h2⟩ := hU hdel
+      have hpn : parkHole th.park = none := by
+        cases hp : th.park with
+        | want l k =>
+          rw [hp] at hdel
+          cases k <;> first | rfl | (simp [isDelPark, isDelK] at hdel)
+        | _ => rfl
+      have : holeOf c'.threads = holeOf c.threads := by
+        rw [hths']; exact holeOf_set_none c.threads t th r.1 ht hpn h2
+      rw [this, ← h1]; exact hTO
+  refine ⟨⟨⟨htreeOk, ?_, ?_, ?_, hcfg', hown', ?_⟩, ?_, halive⟩, th, ht, ?_⟩
+  · -- threads
+    intro b hb
+    obtain ⟨j, hj⟩ := List.getElem?_of_mem hb
+    rcases hidx j b hj with ⟨_, e⟩ | ⟨hne, hjo⟩
+    · rw [e]; exact hnew_sok
+    · exact (hother j b hjo hne).1
+  · rw [horder, hP']; exact hS.order
+  · rw [hP']; exact hS.pad
+  · -- extra
+    intro i j a b hi hj hij x hx
+    rcases hidx i a hi with ⟨ei, ea⟩ | ⟨hit, hio⟩
+    · -- the stepping thread's extras are fresh
+      subst ei
+      rcases hidx j b hj with ⟨ej, _⟩ | ⟨hjt, hjo⟩
+      · exact absurd ej.symm hij
+      · rw [ea] at hx
+        have hfresh := hnew_extra x hx
+        constructor
+        · intro hh
+          have := hold_lt j b hjo x (Or.inl hh)
+          omega
+        · intro hh
+          have := hold_lt j b hjo x (Or.inr (Or.inl hh))
+          omega
+    · have hxo : x ∈ parkExtra c.tree a.park := by rw [← (hother i a hio hit).2]; exact hx
+      rcases hidx j b hj with ⟨ej, eb⟩ | ⟨hjt, hjo⟩
+      · -- `b` is the stepping thread
+        subst ej
+        rw [eb]
+        have hexo := hS.extra i j a th hio ht hij
+        have hnotstep : ∀ y ∈ parkExtra c.tree a.park, Lk.node y ∉ stepHeld th := by
+          intro y hy hs
+          obtain ⟨h1, h2⟩ := hexo y hy
+          unfold stepHeld at hs
+          cases hp : th.park with
+          | want l' k' =>
+            rw [hp] at hs
+            rcases List.mem_append.1 hs with h | h
+            · exact h1 h
+            · have : Lk.node y = l' := by simpa using h
+              apply h2
+              rw [hp]; simp [parkWant, this]
+          | start => rw [hp] at hs; exact h1 hs
+          | yielded k' => rw [hp] at hs; exact h1 hs
+          | finished => rw [hp] at hs; exact h1 hs
+        have hnotheld : ∀ y ∈ parkExtra c.tree a.park, Lk.node y ∉ r.1.held :=
+          fun y hy hh => hnotstep y hy (hnew_held _ hh)
+        refine ⟨hnotheld x hxo, ?_⟩
+        intro hw
+        -- the new wanted node is one of `a`'s extras: impossible
+        obtain ⟨ka, hpa, hxa⟩ := parkExtra_nonempty hx
+        have ham : a ∈ c.threads := List.mem_of_getElem? hio
+        have hoka := hS.cfg a ham
+        have hsoka := (hother i a hio hit).1
+        have hkoa : KontOk c'.tree ka := by
+          have := hsoka.1
+          rcases hpa with h | ⟨l, h⟩ <;> rw [h] at this <;> exact this
+        have hprea : KontPre a.cursor ka := by
+          have := hoka.2.1
+          rcases hpa with h | ⟨l, h⟩ <;> rw [h] at this <;> exact this
+        have hheldka : ∀ l ∈ kontHeld ka, l ∈ a.held := by
+          intro l hl
+          apply hoka.1.mem_iff.2
+          apply List.mem_append_right
+          rcases hpa with h | ⟨l', h⟩ <;> rw [h] <;> exact hl
+        have hokb := hcfg' r.1 (List.mem_of_getElem? hnewt)
+        cases hpb : r.1.park with
+        | start => rw [hpb] at hw; cases hw
+        | finished => rw [hpb] at hw; cases hw
+        | yielded kb => rw [hpb] at hw; cases hw
+        | want lb kb =>
+          rw [hpb] at hw
+          have hlb : lb = Lk.node x := by simpa [parkWant] using hw
+          have hlockb : kontLock kb = some (Lk.node x) := by
+            have := hokb.2.2; rw [hpb] at this
+            have h2 : kontLock kb = some lb := this
+            rw [h2, hlb]
+          have hkob : KontOk c'.tree kb := by
+            have := hnew_sok.1; rw [hpb] at this; exact this
+          have hpreb : KontPre r.1.cursor kb := by
+            have := hokb.2.1; rw [hpb] at this; exact this
+          have hheldkb : ∀ l ∈ kontHeld kb ++ cursorLocks r.1.cursor, l ∈ r.1.held := by
+            intro l hl
+            apply hokb.1.mem_iff.2
+            rcases List.mem_append.1 hl with h | h
+            · apply List.mem_append_right; rw [hpb]; exact h
+            · exact List.mem_append_left _ h
+          rcases want_extra_conflict htreeOk.ids htreeOk.chain ka kb a.cursor r.1.cursor hkoa hkob hprea hpreb x hlockb hxa with
+            ⟨l, hl1, hl2⟩ | ⟨y, hy1, hy2⟩ | h3
+          · -- a common mutex
+            have hia : c'.threads[i]? = some a := hi
+            exact hij (held_excl hown' hia hnewt (hheldka l hl1) (hheldkb l hl2))
+          · have hyo : y ∈ parkExtra c.tree a.park := by
+              rw [← (hother i a hio hit).2]
+              rcases hpa with h | ⟨l', h⟩ <;> rw [h] <;> exact hy1
+            exact hnotheld y hyo (hheldkb _ (List.mem_append_left _ hy2))
+          · have hfresh := hnew_extra x (by rw [hpb]; exact h3)
+            have := hold_lt i a hio x (Or.inr (Or.inr hxo))
+            omega
+      · exact hS.extra i j a b hio hjo hij x hxo
+  · -- discipline
+    intro b hb
+    obtain ⟨j, hj⟩ := List.getElem?_of_mem hb
+    rcases hidx j b hj with ⟨_, e⟩ | ⟨hne, hjo⟩
+    · rw [e]; exact hout.disc
+    · exact hinv.disc b (List.mem_of_getElem? hjo)
+  · -- the frame
+    refine ⟨?_, ?_⟩
+    · intro id h1 h2
+      exact (hframe.lookup id (keepOf_true h1 h2)).symm
+    · intro hnt
+      rcases hroot with h | h
+      · exact absurd h hnt
+      · exact h
 
 end Gobptree.Conc
